@@ -78,32 +78,50 @@ theorem printableArgs_toks_ok : ∀ (es : SEL) (esc : Bool), es.printable esc = 
     exact ⟨_, by simp only [SEL.toks, ht, hts, UR.ok_bind]; rfl⟩
 end
 
-/-- **Spans nest.**  For any token list whose positions are in order (`Sorted`), whatever the parser
-returns — for *any* input, printed or not — has every node's `[begin, end)` non-empty-or-empty but ordered,
-inside its parent's, and starting at or after the first token. -/
-theorem span_nesting (F lo : Nat) (pts : List PTok) (pe : PE) (hs : Sorted lo pts)
-    (h : parseTop F pts = .ok pe) : pe.nested = true ∧ lo ≤ pe.b ∧ pe.b ≤ pe.e := by
+/-- the statement about positions, for every input -/
+def span_nesting_statement : Prop :=
+  ∀ (F lo : Nat) (pts : List PTok) (pe : PE), Sorted lo pts → parseTop F pts = .ok pe →
+    pe.nested = true ∧ lo ≤ pe.b ∧ pe.b ≤ pe.e
+
+/-- **Spans nest** — unless a `lat, lng` literal is involved.  For any token list whose positions are in order
+(`Sorted`), whatever the parser returns — for *any* input, printed or not — has `begin ≤ end` on every node,
+every child inside its parent, and starts at or after the first token, provided the parsed tree holds no
+`lat, lng` literal (`PE.noPoint`; `reduceLatLng` gives those no position: finding `latlng-span`). -/
+theorem span_nesting_partial (F lo : Nat) (pts : List PTok) (pe : PE) (hs : Sorted lo pts)
+    (h : parseTop F pts = .ok pe) (hnp : pe.noPoint = true) :
+    pe.nested = true ∧ lo ≤ pe.b ∧ pe.b ≤ pe.e := by
   simp only [parseTop] at h
   obtain ⟨⟨e, r⟩, h1, h2⟩ := B6.Lemmas.ShellSpans.PR.bind_ok _ _ _ h
-  obtain ⟨hn, hb, hbe, _⟩ := (spans F).1 lo pts e r hs h1
   cases r with
   | nil =>
     simp only [PR.ok.injEq] at h2
     subst h2
+    obtain ⟨hn, hb, hbe, _⟩ := (spans F).1 lo pts e [] hs h1 hnp
     exact ⟨hn, hb, hbe⟩
   | cons x xs => simp at h2
 
+/-- `f 1.0, 2.0` at positions 0‥1, 2‥5, 5‥6, 7‥10: the point gets the span [0,0), the call inherits `End = 0` -/
+theorem latlng_span_counterexample : ¬ span_nesting_statement := by
+  intro h
+  have := h 10 0 [⟨.sym [102], 0, 1⟩, ⟨.float [49, 46, 48], 2, 5⟩, ⟨.p 44, 5, 6⟩, ⟨.float [50, 46, 48], 7, 10⟩]
+    (.mk (.call (.mk (.sym [102]) 0 1) (.cons (.mk (.lit (.point [49, 46, 48] [50, 46, 48])) 0 0) .nil) false) 0 0)
+    (by simp [Sorted]) rfl
+  revert this
+  decide
+
 /-- **The property, at token level.**  A printable expression prints; its tokens, laid out at any ordered
-positions, parse to the normal form of the expression; and the spans of the parsed tree nest. -/
+positions, parse to the normal form of the expression; and the spans of the parsed tree nest (if it holds no
+`lat, lng` literal). -/
 theorem print_parse_roundtrip (e : SE) (esc : Bool) (hp : e.printable esc = true) :
     ∃ ts, e.toks true = .ok ts ∧ ∀ (pts : List PTok) (lo : Nat), toksOf pts = ts → Sorted lo pts →
-      ∃ n pe, PE.strip pe = e.normC ∧ pe.nested = true ∧ lo ≤ pe.b ∧
+      ∃ n pe, PE.strip pe = e.normC ∧ (pe.noPoint = true → pe.nested = true ∧ lo ≤ pe.b) ∧
         ∀ F, parseTop (F + n) pts = .ok pe := by
   obtain ⟨⟨ts, hts⟩, _⟩ := printable_toks_ok e esc hp
   refine ⟨ts, hts, fun pts lo hpts hs => ?_⟩
   obtain ⟨n, pe, hstrip, hparse⟩ := parse_unparse_tokens e esc hp ts hts pts hpts
-  obtain ⟨hn, hb, _⟩ := span_nesting (0 + n) lo pts pe hs (hparse 0)
-  exact ⟨n, pe, hstrip, hn, hb, hparse⟩
+  refine ⟨n, pe, hstrip, fun hnp => ?_, hparse⟩
+  obtain ⟨hn, hb, _⟩ := span_nesting_partial (0 + n) lo pts pe hs (hparse 0) hnp
+  exact ⟨hn, hb⟩
 
 /-! ## non-vacuity, and the text layer -/
 
